@@ -36,9 +36,10 @@ def fn_queries(tier, prop):
                 # STEER=2: additionally "failed with the cursor left on a closer/comma" (vacuous on a correct tree)
                 for entry, stubs in (('h_array_fn', {nm['parseValue']: 'fn_parseValue'}), ('h_object_fn', {nm['parseValue']: 'fn_parseValue', nm['UnEscape']: 'fn_unescape'}),
                                      ('h_top_fn', {nm['parseValue']: 'fn_parseValue'})):
-                    for st in (1, 2):
+                    for st in (1, 2, 3):
                         if st == 2 and entry == 'h_top_fn': continue
-                        if tier == 'quick' and L == 5 and not (entry == 'h_object_fn' and st == 1): continue   # L=5: room for  "":1}
+                        if st == 3 and not (entry == 'h_object_fn' and L >= 5): continue      # STEER=3: the valid text  "":D}  (empty member name)
+                        if tier == 'quick' and L == 5 and not (entry == 'h_object_fn' and st in (1, 3)): continue   # L=5: room for  "":1}
                         d2 = dict(d); d2['STEER'] = st
                         qs.append(Query('%s/%s/%s/L%d/steer%d' % (prop, entry, ch, L, st), 'C07_json_fn.cpp', entry, d2, bounds=b, stubs=stubs, cflags=['-Dprotected=public'], timeout=900,
                                         replay=('C05_lift.cpp', {'h_array_fn': 'lift_array_fn', 'h_object_fn': 'lift_object_fn', 'h_top_fn': 'lift_top_fn'}[entry]), vacuous_ok=(st == 2)))
